@@ -59,6 +59,17 @@ def r1_purge_guard(ctx):
     if primary not in appenders:
         pf = repo.func(primary)
         appenders[primary] = (pf, [])
+    from .common import helper_of as _helper_of, users_of
+    known = {primary, f"{NOTIFY}.notify", f"{ACT}.flush_queues"}
+    for q in list(appenders):
+        if q != primary and _helper_of(repo, q, known | set(appenders) - {q}):
+            # a helper split off a guarded function: its guard lives in its users, which are analysed with the helper inlined
+            for u in users_of(repo, q):
+                if u in repo.funcs and u not in appenders and not u.endswith("<module>"):
+                    uf = repo.funcs[u]
+                    if uf.params:
+                        appenders[u] = (uf, [])
+            del appenders[q]
     for q, (fi, nodes) in appenders.items():
         bases = {base_name(n) for n in nodes} if nodes else {fi.params[0] if fi.params else None}
         if len(bases) != 1 or None in bases:
@@ -303,8 +314,8 @@ def r7_available_writers(ctx):
             n_sites += 1
             allowed = fi.qual == f"{NOTIFY}.notify"
             if not allowed:
-                cs = callers_of(repo, fi.qual)
-                allowed = bool(cs) and all(c[0].qual == f"{NOTIFY}.notify" for c in cs)
+                from .common import helper_of as _helper_of
+                allowed = _helper_of(repo, fi.qual, {f"{NOTIFY}.notify"})
             if not allowed:
                 ctx.violation("C04.R7", fi.qual, loc(fi, n), f"{attr}[..][..] = available",
                               "a dataset is marked available outside the handling of a DatasetPublished event")
